@@ -413,7 +413,7 @@ PROPS["C14"] = dict(
                "values are multiples of 1/2 (printed exactly); EV forests not covered yet.")
 
 PROPS["C16"] = dict(
-    gens=[("misuse", gen.gen_C16, 1.0)], quick=50, thorough=500,
+    gens=[("misuse", gen.gen_C16, 1.0), ("variable-order-mismatch", gen.gen_C16_order, 0.4)], quick=50, thorough=500,
     level_text="The documented precondition checks of apply (same domain; set/relation shape per operation), the "
                "terminal window (generated codec), division by zero reached by the recursion, exhausted iterators "
                "and detached edges are predicted by the model and must be raised by the library as the documented "
